@@ -16,6 +16,9 @@ thread_local! {
     static COUNT: RefCell<[u32; KEYS]> = RefCell::new([0; KEYS]);
     /// calls made from inside bind closures in the current stabilise: (key, count before, count after, node)
     static INNER_CALLS: RefCell<Vec<(usize, u32, u32, Incr<i32>)>> = RefCell::new(Vec::new());
+    /// decoder 4: the scope of the latest run of the bind closure, handed out so that top-level code
+    /// can enter it with `within_scope` (the memoised nodes must still belong to the memo's own scope)
+    static EXPORTED_SCOPE: RefCell<Option<incremental::Scope>> = RefCell::new(None);
 }
 fn count(k: usize) -> u32 {
     COUNT.with(|c| c.borrow()[k])
@@ -46,6 +49,8 @@ pub fn run_c20(bytes: &[u8], tier: Tier) -> Outcome {
     let mut nontrivial = false;
     COUNT.with(|c| *c.borrow_mut() = [0; KEYS]);
     INNER_CALLS.with(|c| c.borrow_mut().clear());
+    EXPORTED_SCOPE.with(|e| *e.borrow_mut() = None);
+    EXPORTED_SCOPE.with(|e| *e.borrow_mut() = None);
     let r = guarded(|| {
         let st = IncrState::new();
         let mut xv = 10i32;
@@ -65,8 +70,12 @@ pub fn run_c20(bytes: &[u8], tier: Tier) -> Outcome {
             let sw = sw.watch();
             move || {
                 let mut memo = memo.clone();
+                let sw_state = sw.state();
                 sw.bind(move |s: &i32| {
                     let k = (*s).rem_euclid(KEYS as i32) as usize;
+                    if crate::choice::dv() >= 4 {
+                        EXPORTED_SCOPE.with(|e| *e.borrow_mut() = Some(sw_state.current_scope()));
+                    }
                     let before = count(k);
                     let n = memo(k);
                     let after = count(k);
@@ -96,6 +105,7 @@ pub fn run_c20(bytes: &[u8], tier: Tier) -> Outcome {
         let mut pending_exports: Vec<(usize, u32, Incr<i32>)> = vec![];
         let mut outer_dirty = false;
         let (mut top_and_bind_same_key, mut rerun_between, mut reinvocations, mut shared_hits, mut rounds) = (false, false, 0u64, 0u64, 0u64);
+        let mut within_scope_calls = 0u64;
         let mut keys_called_top: [bool; KEYS] = [false; KEYS];
         let mut keys_called_bind: [bool; KEYS] = [false; KEYS];
         for step in 0..steps {
@@ -220,7 +230,19 @@ pub fn run_c20(bytes: &[u8], tier: Tier) -> Outcome {
                     let k = ch.choose(KEYS);
                     let keep = ch.flag(2, 3);
                     let before = count(k);
-                    let n = match guarded(|| memo_top(k)) {
+                    // decoder 4: a third of the top-level calls are made from inside the scope that the
+                    // bind closure handed out
+                    // (only while that scope is valid: the bind node is alive -- we hold it -- and was not itself
+                    // created by another bind's closure; `within_scope` refuses an invalid scope by design)
+                    let scope = if crate::choice::dv() >= 4 && ch.flag(1, 3) && bind.is_some() && !nested { EXPORTED_SCOPE.with(|e| e.borrow().clone()) } else { None };
+                    if scope.is_some() {
+                        trace.push("(next call through state.within_scope(<scope of the bind closure's latest run>, ..))".to_string());
+                        within_scope_calls += 1;
+                    }
+                    let n = match guarded(|| match scope {
+                        Some(sc) => st.within_scope(sc, || memo_top(k)),
+                        None => memo_top(k),
+                    }) {
                         Ok(n) => n,
                         Err(m) => {
                             fails.push(Failure { prop: "C20", clause: "panic", msg: format!("step {step}: memoised call panicked: {m}") });
@@ -355,6 +377,7 @@ pub fn run_c20(bytes: &[u8], tier: Tier) -> Outcome {
             ("cases_with_bind_rerun_to_other_key", rerun_between as u64),
             ("function_reinvocations", reinvocations),
             ("shared_node_hits", shared_hits),
+            ("top_level_calls_through_within_scope", within_scope_calls),
             ("stabilises", rounds),
             ("cases_nested_bind", nested as u64),
             ("cases_bind_returns_the_memoised_node_itself", direct as u64),
@@ -364,6 +387,7 @@ pub fn run_c20(bytes: &[u8], tier: Tier) -> Outcome {
         fails.push(Failure { prop: "C20", clause: "panic", msg: format!("panic: {m}") });
     }
     INNER_CALLS.with(|c| c.borrow_mut().clear());
+    EXPORTED_SCOPE.with(|e| *e.borrow_mut() = None);
     Outcome { failures: fails, nontrivial, classes, trace, discarded: false, sub_evaluations: 0 }
 }
 
